@@ -190,6 +190,17 @@ fn assemble_with_command(
 				("len", crate::verif::V::I(formatted.len() as i128)),
 			]);
 
+			#[cfg(hlorenzi_customasm_verif)]
+			crate::verif::emit("delivered", vec![
+				("sum", crate::verif::V::I(crate::verif::checksum(&formatted))),
+				("want", crate::verif::V::I(crate::verif::checksum(&format_output(
+					fileserver,
+					decls,
+					defs,
+					output,
+					format)))),
+			]);
+
 			if output_group.printout
 			{
 				if !command.quiet
